@@ -86,6 +86,21 @@ func isoCorpus(e *ev.Env) {
 		{"sendfile-download-then-plain", isoCase{History: []wreq{
 			{Kind: "sendfile-5", Raw: rawReq(reqSpec{Target: "/file/5?f=b"})}},
 			Probe: probeSpec{Route: -1, Class: ckNone, Variant: "sendfile", Raw: rawReq(reqSpec{Target: "/file/0?probe=1&f=b"})}}},
+		{"baseurl-same-host-other-scheme", isoCase{History: []wreq{
+			{Kind: "base-url", Raw: rawReq(reqSpec{Target: "/base", Host: "example.com", Hdr: [][2]string{{"X-Forwarded-Proto", "https"}}})}},
+			Probe: probeSpec{Route: 4, Class: ckNone, Raw: rawReq(reqSpec{Target: "/probeplain", Host: "example.com"})}}},
+		{"baseurl-same-host-forwarded-host", isoCase{Cfg: isoCfg{Trust: 1}, History: []wreq{
+			{Kind: "base-url", Raw: rawReq(reqSpec{Target: "/base", Host: "example.com"})}},
+			Probe: probeSpec{Route: 4, Class: ckNone, Raw: rawReq(reqSpec{Target: "/probeplain", Host: "example.com", Hdr: [][2]string{{"X-Forwarded-Host", "shop.example.org"}, {"X-Forwarded-Ssl", "on"}}})}}},
+		{"accept-q0-params-then-parameterised-accept", isoCase{Cfg: isoCfg{Touch: true}, History: []wreq{
+			{Kind: "locals", Raw: rawReq(reqSpec{Target: "/locals/h0", Hdr: [][2]string{{"Accept", "text/html;level=1;q=0, application/json"}}})}},
+			Probe: probeSpec{Route: 4, Class: ckNone, Raw: rawReq(reqSpec{Target: "/probeplain", Hdr: [][2]string{{"Accept", "text/plain;format=flowed"}}})}}},
+		{"unrouted-404-with-flash-then-probe", isoCase{Cfg: isoCfg{NoMW: true}, History: []wreq{
+			{Kind: "unrouted-404", Cookie: ckValid, Raw: rawReq(reqSpec{Target: "/private/alice", Cookie: two})}},
+			Probe: probeWith("/probeplain", ckNone, nil)}},
+		{"unrouted-405-errorhandler-state-then-probe", isoCase{Cfg: isoCfg{NoMW: true, EHState: true, PassLocals: true}, History: []wreq{
+			{Kind: "unrouted-405", Raw: rawReq(reqSpec{Method: "POST", Target: "/getonly?name=h0&a=x", Body: []byte{}})}},
+			Probe: probeSpec{Route: 4, Class: ckNone, Variant: "R", Raw: rawReq(reqSpec{Target: "/probeplain?variant=R&a=notanumber"})}}},
 		{"server-error-path-then-probe", isoCase{History: []wreq{
 			{Kind: "locals", Cookie: ckValid, Raw: rawReq(reqSpec{Target: "/locals/h0", Cookie: one})},
 			{Kind: "malformed", Kills: true, Raw: []byte("GET\r\n\r\n")}},
